@@ -13,7 +13,7 @@ import copy
 import re
 import traceback
 
-from c10_lang import limbs
+from c10_lang import limbs, shape_nbits, type_class
 
 _OPS = {"Add": "+", "Sub": "-", "Mult": "*", "Div": "/", "Mod": "%", "Pow": "**",
         "ShiftLeft": "<<", "ShiftRightLogic": ">>", "BitAnd": "&", "BitOr": "|", "BitXor": "^",
@@ -22,10 +22,14 @@ _OPS = {"Add": "+", "Sub": "-", "Mult": "*", "Div": "/", "Mod": "%", "Pow": "**"
 
 _WIDTH_MSG = re.compile(r"bitwidth|too wide|too narrow|not a valid binop operand|Cannot fit|"
                         r"too big for|must have matching", re.I)
+# from_bits() of a bitstruct (struct @= vector / other struct) states its width requirement as an assert
+_STRUCT_WIDTH_MSG = re.compile(r"LHS bitstruct \d+-bit <> RHS other \d+-bit")
 
 
 def exc_category(e):
     if isinstance(e, ValueError) and _WIDTH_MSG.search(str(e)):
+        return "width"
+    if isinstance(e, AssertionError) and _STRUCT_WIDTH_MSG.search(str(e)):
         return "width"
     if isinstance(e, AssertionError):
         # trunc / zext / sext (datatypes/helpers.py) state their bitwidth requirement as an assert
@@ -109,6 +113,21 @@ def _load(node):
     return n
 
 
+def shape_of_type(ty):
+    """shape (BitStruct.tla: leaf / struct / list) of a declared Python type: a BitsN class, a bitstruct class
+    (read from its field declarations) or a (nested) list of types -- never from RTLIR, to_bits() or nbits"""
+    from pymtl3.datatypes import Bits, is_bitstruct_class
+    if isinstance(ty, list):
+        if not ty:
+            raise Unconvertible("empty list type")
+        return {"k": "list", "n": len(ty), "t": shape_of_type(ty[0])}
+    if isinstance(ty, type) and issubclass(ty, Bits):
+        return {"k": "leaf", "w": int(ty.nbits)}
+    if is_bitstruct_class(ty):
+        return {"k": "struct", "fs": [{"n": nm, "t": shape_of_type(t)} for nm, t in ty.__bitstruct_fields__.items()]}
+    raise Unconvertible("type %r" % (ty,))
+
+
 def _declared(obj):
     """declared (w, st, pytype) of a signal / value object, from the Python objects (not RTLIR)"""
     from pymtl3.datatypes import Bits, is_bitstruct_class, is_bitstruct_inst
@@ -124,7 +143,7 @@ def _declared(obj):
     if isinstance(ty, type) and issubclass(ty, Bits):
         return ty.nbits, False, ty
     if is_bitstruct_class(ty):
-        return ty().to_bits().nbits, True, ty
+        return shape_nbits(shape_of_type(ty)), True, ty
     return None
 
 
@@ -156,6 +175,11 @@ class Converter:
         sw, sx = self._static(r)
         n = {"k": k, "sw": sw, "sx": sx, "rk": "none", "rw": 0, "rc": "", "role": role}
         n.update(f)
+        if py is not None and (isinstance(py, list) or f.get("st")):
+            try:
+                n["tc"] = type_class(shape_of_type(py))       # class of the struct / list type (violation keys)
+            except Unconvertible:
+                pass
         self.nodes.append(n)
         self.rn.append(r)
         self.py.append(py)
@@ -188,6 +212,9 @@ class Converter:
                 return self.emit("num", r, role, limbs=limbs(o))
             if isinstance(o, Bits):
                 return self.emit("bconst", r, role, w=o.nbits, limbs=limbs(int(o)))
+            d = _declared(o)
+            if d is not None and d[1]:           # a bitstruct constant
+                return self.emit("sig", r, role, py=d[2], w=d[0], st=True, ty=shape_of_type(d[2]))
             return self.opaque(r, role)
         if cn == "SizeCast":
             inner = r.value
@@ -215,7 +242,8 @@ class Converter:
             c = self.expr(r.cond)
             a = self.expr(r.body)
             b = self.expr(r.orelse)
-            return self.emit("ifexp", r, role, c=c, a=a, b=b)
+            return self.emit("ifexp", r, role, py=self.py[a - 1] if self.nodes[a - 1].get("st") else None,
+                             c=c, a=a, b=b, st=bool(self.nodes[a - 1].get("st")))
         if cn == "Concat":
             args = [self.expr(x) for x in r.values]
             return self.emit("concat", r, role, args=args)
@@ -233,7 +261,10 @@ class Converter:
             return self.opaque(r, role)
         if cn == "TmpVar":
             if r.name in self.tmps:
-                return self.emit("tmp", r, role, v=self.tmps[r.name])
+                vid = self.tmps[r.name]
+                vpy = self.py[vid - 1]
+                return self.emit("tmp", r, role, py=vpy, v=vid,
+                                 st=bool(self.nodes[vid - 1].get("st")) and not isinstance(vpy, list))
             return self.opaque(r, role)
         if cn == "Attribute":
             return self.attribute(r, role)
@@ -241,7 +272,14 @@ class Converter:
             return self.index(r, role)
         if cn == "Slice":
             return self.slice(r, role)
-        return self.opaque(r, role)            # StructInst, ...
+        if cn == "StructInst":
+            from pymtl3.datatypes import is_bitstruct_class
+            if not is_bitstruct_class(r.struct):
+                return self.opaque(r, role)
+            args = [self.expr(x) for x in r.values]
+            sh = shape_of_type(r.struct)
+            return self.emit("sinst", r, role, py=r.struct, w=shape_nbits(sh), st=True, ty=sh, args=args)
+        return self.opaque(r, role)
 
     def _sig_like(self, r, role):
         """Attribute / Index chain that statically resolves to a signal object"""
@@ -254,7 +292,7 @@ class Converter:
         if d is None or isinstance(o, Bits):
             return None
         w, st, ty = d
-        return self.emit("sig", r, role, py=ty, w=w, st=st)
+        return self.emit("sig", r, role, py=ty, w=w, st=st, ty=shape_of_type(ty))
 
     def attribute(self, r, role):
         from pymtl3.datatypes import Bits, is_bitstruct_class
@@ -262,19 +300,16 @@ class Converter:
         if type(v).__name__ == "Base":
             got = self._sig_like(r, role)
             return got if got is not None else self.opaque(r, role)
-        # struct field?
-        if type(v).__name__ in ("Attribute", "Index"):
-            a = self.attribute(v, "") if type(v).__name__ == "Attribute" else self.index(v, "")
+        # struct field?  (of a signal, a field, an element, a temporary, a constant, ...)
+        if type(v).__name__ in ("Attribute", "Index", "TmpVar", "FreeVar", "IfExp", "StructInst"):
+            a = self.expr(v)
             base = self.nodes[a - 1]
             ty = self.py[a - 1]
-            if base["k"] in ("sig", "field", "elem") and base.get("st") and ty is not None \
-                    and is_bitstruct_class(ty) and r.attr in ty.__bitstruct_fields__:
-                fty = ty.__bitstruct_fields__[r.attr]
-                if isinstance(fty, type) and issubclass(fty, Bits):
-                    return self.emit("field", r, role, py=fty, a=a, w=fty.nbits, st=False)
-                if is_bitstruct_class(fty):
-                    return self.emit("field", r, role, py=fty, a=a, w=fty().to_bits().nbits, st=True)
-                return self.opaque(r, role)
+            if base["k"] in ("sig", "field", "elem", "idx", "tmp", "ifexp", "sinst") and ty is not None \
+                    and not isinstance(ty, list) and is_bitstruct_class(ty) and r.attr in ty.__bitstruct_fields__:
+                fty = ty.__bitstruct_fields__[r.attr]       # BitsN class, bitstruct class or (nested) list of types
+                sh = shape_of_type(fty)
+                return self.emit("field", r, role, py=fty, a=a, name=r.attr, w=shape_nbits(sh), st=sh["k"] == "struct")
             # interface / sub-component attribute: the chain was emitted as opaque; try the object
             if base["k"] == "opq" and base["sw"] == 0:
                 self.nodes.pop(); self.rn.pop(); self.py.pop()
@@ -286,6 +321,16 @@ class Converter:
     def index(self, r, role):
         from pymtl3.dsl import InPort, OutPort, Wire
         v = r.value
+        # a list field of a bitstruct (packed array): one dimension per index
+        if not (type(v).__name__ == "Attribute" and type(v.value).__name__ == "Base"):
+            n0 = len(self.nodes)
+            a = self.expr(v)
+            ety = self.py[a - 1]
+            if isinstance(ety, list) and ety:
+                i = self.expr(r.idx, "idx")
+                sh = shape_of_type(ety[0])
+                return self.emit("idx", r, role, py=ety[0], a=a, i=i, w=shape_nbits(sh), st=sh["k"] == "struct")
+            del self.nodes[n0:], self.rn[n0:], self.py[n0:]
         # array of signals?
         arr = None
         try:
@@ -297,14 +342,15 @@ class Converter:
             i = self.expr(r.idx, "idx")
             if d is None:
                 return self.opaque(r, role)
-            return self.emit("elem", r, role, py=d[2], n=len(arr), w=d[0], st=d[1], i=i)
+            return self.emit("elem", r, role, py=d[2], n=len(arr), w=d[0], st=d[1], i=i, ty=shape_of_type(d[2]))
         if isinstance(arr, list):
             self.expr(r.idx, "idx")
             return self.opaque(r, role)
         a = self.expr(v)
         i = self.expr(r.idx, "idx")
         base = self.nodes[a - 1]
-        if base["k"] in ("sig", "field", "elem", "tmp", "slice") and not base.get("st", False):
+        if base["k"] in ("sig", "field", "elem", "idx", "tmp", "slice") and not base.get("st", False) \
+                and not isinstance(self.py[a - 1], list):
             return self.emit("bit", r, role, a=a, i=i)
         return self.opaque(r, role)
 
@@ -377,6 +423,10 @@ def shape_of(nodes):
             out.append(("sig", n["w"]))
         elif k == "field":
             out.append(("field", n["w"]))
+        elif k == "idx":
+            out.append(("idx", n["w"]))
+        elif k == "sinst":
+            out.append(("sinst", len(n["args"])))
         elif k == "num":
             v = 0
             for j, x in enumerate(n["limbs"]):
@@ -408,6 +458,24 @@ class _Abort(Exception):
     pass
 
 
+def _list_bits(v):
+    """total number of bits of a (nested) list of Bits / bitstruct values; None if it holds anything else"""
+    from pymtl3.datatypes import Bits, is_bitstruct_inst
+    if isinstance(v, Bits):
+        return v.nbits
+    if is_bitstruct_inst(v):
+        return v.to_bits().nbits
+    if isinstance(v, list) and v:
+        tot = 0
+        for x in v:
+            b = _list_bits(x)
+            if b is None:
+                return None
+            tot += b
+        return tot
+    return None
+
+
 class Runtime:
     """Interprets the block statement by statement on the simulated component.  Before a statement
     executes, every sub-expression (the Python ast node the RTLIR node came from) is evaluated on
@@ -418,6 +486,7 @@ class Runtime:
         n = len(conv.nodes)
         self.bits = [set() for _ in range(n)]
         self.ints = [None] * n
+        self.neg = [False] * n       # a negative Python int was seen (it has no width)
         self.excs = [None] * n
         self.seen = [False] * n
         self.kids = [self._kids(x) for x in conv.nodes]
@@ -449,10 +518,17 @@ class Runtime:
     def _record(self, i, v):
         from pymtl3.datatypes import Bits, is_bitstruct_inst
         self.seen[i] = True
+        if isinstance(v, int) and not isinstance(v, Bits) and v < 0:
+            self.neg[i] = True
         if isinstance(v, Bits):
             self.bits[i].add(v.nbits)
         elif is_bitstruct_inst(v):
             self.bits[i].add(v.to_bits().nbits)
+        elif isinstance(v, list):
+            # a (partially indexed) list field: the bits of all its elements
+            w = _list_bits(v)
+            if w is not None:
+                self.bits[i].add(w)
         elif isinstance(v, int):
             if v >= 0:
                 b = max(1, int(v).bit_length())
@@ -563,6 +639,8 @@ class Runtime:
 
     def fill(self):
         for i, n in enumerate(self.c.nodes):
+            if self.neg[i]:
+                n["rneg"] = True
             if self.excs[i] is not None:
                 n["rk"] = "exc"
                 n["rc"] = exc_category(self.excs[i])
